@@ -26,16 +26,54 @@ theorem stream_live_step (hi : Inv s) (h : step s l = some s') :
        · exact ⟨⟨k1, s.nextGen k1⟩, .pending, hkk.symm, by simp, rfl⟩
        · grind [upd_apply, Pc.live_pending, Pc.live_spawned, Pc.live_waiting, Pc.live_busy, Pc.live_leaving])
 
+theorem dropped_nil_step (hi : Inv s) (h : step s l = some s') :
+    s'.closing = false → ∀ k, s'.dropped k = [] := by
+  have h1 := hi.dropped_nil
+  intro hc k
+  cases l <;> step_cases h <;> simp_all
+
+theorem dropLast_append_singleton (b : List Item) (i : Item) : (b ++ [i]).dropLast = b := by
+  simp
+
+theorem mem_dropLast_cons {x a : Item} {b : List Item} (h : x ∈ b.dropLast) : x ∈ (a :: b).dropLast := by
+  cases b with
+  | nil => simp at h
+  | cons c r => simp [List.dropLast] at h ⊢; exact Or.inr h
+
+theorem eos_head_alone {tail : List Item} (h : Item.eos ∉ (Item.eos :: tail).dropLast) : tail = [] := by
+  cases tail with
+  | nil => rfl
+  | cons c r => simp [List.dropLast] at h
+
+theorem eos_last_step (hi : Inv s) (h : step s l = some s') :
+    ∀ k b, s'.streams k = some b → Item.eos ∉ b.dropLast := by
+  have h1 := hi.eos_last
+  have h3 := hi.noeos
+  intro k b
+  cases l <;> step_cases h <;> (try dsimp only) <;> (try simp only [upd_apply]) <;> (try split) <;>
+    (try (intro hb; cases hb)) <;> (try simp only [dropLast_append_singleton])
+  all_goals first
+    | (intro hb; exact h1 _ _ hb)
+    | grind [mem_dropLast_cons]
+
 theorem lossless_step (hi : Inv s) (h : step s l = some s') :
-    s'.closing = false → ∀ k, s'.failedK k = false →
-      s'.arrived k = s'.started k ++ backlogEvs s' k ++ handEvs s' k := by
+    s'.closed = false → ∀ k, s'.failedK k = false →
+      s'.arrived k = s'.started k ++ backlogEvs s' k ++ handEvs s' k ++ s'.dropped k := by
   have h1 := hi.lossless
   have h2 := hi.hand_none
   have h3 := hi.noeos
   have h4 := hi.closed_closing
+  have h5 := hi.dropped_nil
+  have h6 : ∀ k tail, s.streams k = some (Item.eos :: tail) → tail = [] :=
+    fun k tail hst => eos_head_alone (hi.eos_last k _ hst)
+  have h7 : ∀ k, handOf s.hand k = [] ∨ s.dropped k = [] := by
+    intro k
+    cases hh : s.hand with
+    | none => left; rfl
+    | some ke => right; exact hi.dropped_nil (hi.hand_none ke.1 ke.2 (by simp [hh])).2 k
   intro hc k hf
   cases l <;> step_cases h <;> (try dsimp only at hc hf ⊢)
-  all_goals (simp only [backlogEvs, handEvs] at h1 ⊢)
+  all_goals (simp only [backlogEvs, handEvs, dropHand] at h1 ⊢)
   all_goals grind [upd_apply, evs_append, evs_cons_ev, evs_cons_eos, evs_nil, backlogOf_none, backlogOf_some,
     handOf_none, handOf_some]
 
@@ -75,6 +113,8 @@ theorem inv_step (hi : Inv s) (h : step s l = some s') : Inv s' where
   nonempty := nonempty_step hi h
   noeos := noeos_step hi h
   lossless := lossless_step hi h
+  dropped_nil := dropped_nil_step hi h
+  eos_last := eos_last_step hi h
   started_spec := started_spec_step hi h
   busy_started := busy_started_step hi h
   limit_ok := limit_step hi h
